@@ -68,7 +68,7 @@ func c17Request() *pbsubstreamsrpc.Request {
 	}
 	for i := 0; i < nb; i++ {
 		t := binTypes[0]
-		if focus == 0 {
+		if focus == 0 && i == nb-1 {
 			t = binTypes[sym.Choice("binary-type", len(binTypes))]
 		}
 		mods.Binaries = append(mods.Binaries, &pbsubstreams.Binary{Type: t, Content: []byte{1}})
@@ -116,11 +116,16 @@ func c17Request() *pbsubstreamsrpc.Request {
 		}
 		mods.Modules = append(mods.Modules, m)
 	}
-	if sym.Choice("modules-present", 8) != 7 {
-		req.Modules = mods
-	}
+	req.Modules = mods
 	outs := []string{"a", "b", "zz", ""}
-	req.OutputModule = outs[sym.Choice("output", len(outs))]
+	if focus == 0 {
+		if sym.Choice("modules-absent", 2) == 1 {
+			req.Modules = nil
+		}
+		req.OutputModule = outs[sym.Choice("output", len(outs))]
+	} else {
+		req.OutputModule = outs[sym.Choice("output", 2)]
+	}
 	return req
 }
 
